@@ -6,6 +6,7 @@ import (
 	"context"
 	"fmt"
 	"io"
+	"runtime"
 	"sort"
 	"sync"
 	"sync/atomic"
@@ -502,5 +503,116 @@ func TestC14SendFail(t *testing.T) {
 				}
 			}
 		}
+	}
+}
+
+// ---------------------------------------------------------------- C13: the connection fails under many outstanding calls
+
+// TestC13Crash: free-running (real goroutines, GOMAXPROCS 16, no bubble): a fresh connection with 100 / 400 unary calls
+// (and, every other round, 16 streams in RecvMsg) outstanding - every request is on the wire -, then the transport's Read
+// fails: all the woken calls unregister at once while the failure path walks the registry. 30 rounds. A crash of the
+// process (fatal "concurrent map writes", close of a closed channel, a panic) is attributed by ./check to the round whose
+// begin marker is open and is a failing input; otherwise every call must have returned an error (C13Surplus: reason 6 for
+// a call still pending after 20 s, 5 for a fabricated success), and calls started afterwards fail too.
+func TestC13Crash(t *testing.T) {
+	em := NewEmitter()
+	defer em.Close()
+	old := runtime.GOMAXPROCS(16)
+	defer runtime.GOMAXPROCS(old)
+	rounds := 30
+	if thorough() {
+		rounds = 120
+	}
+	for idx := 0; idx < rounds; idx++ {
+		if !want(idx) {
+			continue
+		}
+		n := []int{100, 400}[idx%2]
+		nstreams := 0
+		if idx%4 >= 2 {
+			nstreams = 16
+		}
+		em.Marker("begin", idx)
+		ep := NewEndpoint("client")
+		cc := goat.NewClientConn(ep, "src", "dst")
+		got := make([]atomic.Int64, n+nstreams+20)
+		for i := range got {
+			got[i].Store(-2)
+		}
+		var wg sync.WaitGroup
+		for i := 0; i < n; i++ {
+			wg.Add(1)
+			go func(i int) {
+				defer wg.Done()
+				var out wrapperspb.BytesValue
+				if err := cc.Invoke(context.Background(), "/verif.Echo/Unary", &wrapperspb.BytesValue{Value: payloadOf(int64(1 + i))}, &out); err != nil {
+					got[i].Store(-3)
+				} else {
+					got[i].Store(tokenOf(out.Value))
+				}
+			}(i)
+		}
+		for i := 0; i < nstreams; i++ {
+			wg.Add(1)
+			go func(i int) {
+				defer wg.Done()
+				cs, err := cc.NewStream(context.Background(), descBidi, "/verif.Echo/Bidi")
+				if err != nil {
+					got[n+i].Store(-3)
+					return
+				}
+				var m wrapperspb.BytesValue
+				if err := cs.RecvMsg(&m); err != nil {
+					got[n+i].Store(-3)
+				} else {
+					got[n+i].Store(tokenOf(m.Value))
+				}
+			}(i)
+		}
+		// every request is on the wire
+		deadline := time.Now().Add(20 * time.Second)
+		for len(ep.WrittenCopy()) < n+nstreams && time.Now().Before(deadline) {
+			time.Sleep(200 * time.Microsecond)
+		}
+		onWire := len(ep.WrittenCopy())
+		ep.FailRead(errInjected)
+		done := make(chan struct{})
+		go func() { wg.Wait(); close(done) }()
+		select {
+		case <-done:
+		case <-time.After(20 * time.Second):
+		}
+		// calls started after the failure
+		var wg2 sync.WaitGroup
+		for i := 0; i < 20; i++ {
+			wg2.Add(1)
+			go func(i int) {
+				defer wg2.Done()
+				ctx, cancel := context.WithTimeout(context.Background(), 20*time.Second)
+				defer cancel()
+				var out wrapperspb.BytesValue
+				if err := cc.Invoke(ctx, "/verif.Echo/Unary", &wrapperspb.BytesValue{Value: payloadOf(int64(900 + i))}, &out); err != nil {
+					if ctx.Err() == nil {
+						got[n+nstreams+i].Store(-3)
+					}
+				} else {
+					got[n+nstreams+i].Store(tokenOf(out.Value))
+				}
+			}(i)
+		}
+		wg2.Wait()
+		var res []string
+		pending := 0
+		for i := range got {
+			v := got[i].Load()
+			if v == -2 {
+				pending++
+			}
+			res = append(res, fmt.Sprintf("(%d, %s, 0)", 1+i, coqZ(v)))
+		}
+		em.Emit(Rec{Idx: idx, Kind: "c13-crash", Desc: map[string]any{"unary": n, "streams": nstreams, "on_wire": onWire, "pending": pending},
+			Tags: []string{fmt.Sprintf("outstanding=%d", n), fmt.Sprintf("streams=%d", nstreams), fmt.Sprintf("all-on-the-wire=%v", onWire == n+nstreams), "free-running"},
+			Coq:  "C13Surplus " + coqList(res)})
+		em.Marker("end", idx)
 	}
 }
